@@ -4,7 +4,6 @@ from pygradflow.implicit_func import ImplicitFunc
 from pygradflow.log import logger
 from pygradflow.step.newton_control import NewtonController
 from pygradflow.step.step_control import StepControlResult
-from pygradflow.step.step_solver_error import StepSolverError
 
 
 class ExactController(NewtonController):
@@ -36,7 +35,10 @@ class ExactController(NewtonController):
             rcond = next_step.rcond
 
             if timer.reached_time_limit():
-                raise StepSolverError("Time limit reached")
+                # the trial is abandoned, not failed: iterate and step
+                # size stay as they are, the solver stops at its next test
+                logger.debug("Time limit reached during Newton iteration")
+                return StepControlResult(iterate, lamb, None, None, False)
 
             self.display_step(i, next_step)
 
